@@ -68,8 +68,8 @@ type summary struct {
 }
 
 var (
-	caseTimeout = 4 * time.Second
-	maxStackMB  = 256
+	caseTimeout = 8 * time.Second
+	maxStackMB  = 24
 	asLimitMB   = 3072
 )
 
@@ -199,7 +199,12 @@ func parentMain(name string, args []string) {
 						seenKey[oc.Key] = true
 					}
 					mu.Unlock()
-					if !dup && res.class != "oom" {
+					if !dup && res.class == "timeout" {
+						oc.Conf = "timeout"
+						mu.Lock()
+						outs = append(outs, oc)
+						mu.Unlock()
+					} else if !dup && res.class != "oom" {
 						// confirm alone, default runtime limits
 						c := runWorker(name, args, res.died, res.died+1, true)
 						if c.died >= 0 {
@@ -262,9 +267,9 @@ func classifyDeath(stderr string, timedOut bool) (string, string, string) {
 	if strings.Contains(low, "out of memory") || strings.Contains(low, "cannot allocate memory") {
 		return "oom", first, ""
 	}
-	// the distinct function names of the top frames name the recursion
-	seen := map[string]bool{}
-	var names []string
+	// the functions that occur repeatedly among the top frames name the
+	// recursion (leaf frames, which occur once, are dropped)
+	cnt := map[string]int{}
 	n := 0
 	for _, mm := range goroutineFrame.FindAllStringSubmatch(stderr, -1) {
 		f := mm[1]
@@ -272,20 +277,23 @@ func classifyDeath(stderr string, timedOut bool) (string, string, string) {
 			continue
 		}
 		n++
-		if n > 24 {
+		if n > 90 {
 			break
 		}
 		if i := strings.LastIndex(f, "/"); i >= 0 {
 			f = f[i+1:]
 		}
-		if !seen[f] {
-			seen[f] = true
+		cnt[f]++
+	}
+	var names []string
+	for f, c := range cnt {
+		if c >= 3 {
 			names = append(names, f)
 		}
 	}
 	sort.Strings(names)
-	if len(names) > 6 {
-		names = names[:6]
+	if len(names) > 8 {
+		names = names[:8]
 	}
 	return "fatal", first, strings.Join(names, "+")
 }
@@ -332,7 +340,7 @@ loop:
 				if cur != last {
 					last = cur
 					lastChange = time.Now()
-				} else if time.Since(lastChange) > 3*caseTimeout+20*time.Second {
+				} else if time.Since(lastChange) > 150*time.Second {
 					timedOut = true
 					cmd.Process.Kill()
 				}
@@ -418,15 +426,10 @@ func childMain(args []string) {
 	o, _ := parseOpts(name, fs.Args())
 	if !*defaults && name != "src" {
 		debug.SetMaxStack(maxStackMB << 20)
+	} else if *defaults && o.tier != "thorough" && name != "src" {
+		// quick tier: confirm with a 128 MB stack (the 1 GB default takes ~20 s to overflow)
+		debug.SetMaxStack(128 << 20)
 	}
-	// address-space limit: a single huge allocation is outside the claim; it
-	// shows up as "out of memory" and is classified oom by the parent
-	lim := uint64(asLimitMB) << 20
-	if name == "src" || *defaults {
-		lim = 6 << 30 // the default 1 GB maximum goroutine stack must fit
-	}
-	syscall.Setrlimit(syscall.RLIMIT_AS, &syscall.Rlimit{Cur: lim, Max: lim})
-
 	f, err := os.OpenFile(*state, os.O_RDWR, 0)
 	if err != nil {
 		panic(err)
@@ -435,6 +438,19 @@ func childMain(args []string) {
 	if err != nil {
 		panic(err)
 	}
+	// address-space limit: a single huge allocation is outside the claim; it
+	// shows up as "out of memory" and is classified oom by the parent
+	// (starlark reserves 4 GB of address space for its small-integer encoding)
+	lim := uint64(4096+asLimitMB) << 20
+	if name == "src" || *defaults {
+		lim = 10 << 30 // the default 1 GB maximum goroutine stack must fit
+		caseTimeout = 90 * time.Second
+	}
+	if name == "src" && !*defaults {
+		caseTimeout = 60 * time.Second
+	}
+	syscall.Setrlimit(syscall.RLIMIT_AS, &syscall.Rlimit{Cur: lim, Max: lim})
+
 	m := newMode(name, o)
 	sum := summary{Mode: name, Counts: map[string]int64{}, Dist: map[string]int64{}}
 	var cur int64 = -1
@@ -446,7 +462,13 @@ func childMain(args []string) {
 			wmu.Lock()
 			c, s := cur, curStart
 			wmu.Unlock()
-			if c >= 0 && time.Since(s) > caseTimeout {
+			lim := caseTimeout
+			if tm, ok := m.(interface{ Timeout(int64) time.Duration }); ok && c >= 0 && !*defaults {
+				if d := tm.Timeout(c); d > 0 {
+					lim = d
+				}
+			}
+			if c >= 0 && time.Since(s) > lim {
 				fmt.Fprintf(os.Stderr, "C02-WATCHDOG case %d\n", c)
 				os.Exit(3)
 			}
@@ -468,6 +490,7 @@ func childMain(args []string) {
 			oc := outcome{Mode: name, I: i, Class: "panic", Detail: detail, Case: m.Describe(i), Conf: "panic"}
 			oc.Key = m.Key(i, "panic", detail)
 			hx.Emit(map[string]any{"kind": "outcome", "o": oc})
+			hx.Flush()
 		} else {
 			sum.Counts[class]++
 		}
@@ -479,6 +502,7 @@ func childMain(args []string) {
 				if ob := e.Obs(i, class); ob != nil {
 					ob["kind"] = "obs"
 					hx.Emit(ob)
+					hx.Flush()
 				}
 			}
 		}
